@@ -726,6 +726,19 @@ class Exec:
                 elif op == 'mul': r = self.wrap_mul(a, b, bits)
                 elif op == 'udiv': r = self.udivrem(a, b)[0]
                 elif op == 'urem': r = self.udivrem(a, b)[1]
+                elif op in ('sdiv', 'srem') and not (isinstance(a, int) and isinstance(b, int)):
+                    # signed division truncates toward zero: decided on magnitudes, the signs chosen by forking
+                    sa, sb = self.signed(a, bits), self.signed(b, bits)
+                    na = (sa < 0) if isinstance(sa, int) else self.decide(sa < 0)
+                    nb = (sb < 0) if isinstance(sb, int) else self.decide(sb < 0)
+                    ma = -sa if na else sa; mb = -sb if nb else sb
+                    if isinstance(ma, int) and isinstance(mb, int):
+                        if mb == 0: raise AssertFail('div by zero')
+                        q, rm = ma // mb, ma % mb
+                    else:
+                        q, rm = self.udivrem(ma, mb)
+                    if op == 'sdiv': r = self.unsigned(-q if na != nb else q, bits) if not isinstance(q, int) else ((-q if na != nb else q) % M(bits))
+                    else: r = self.unsigned(-rm if na else rm, bits) if not isinstance(rm, int) else ((-rm if na else rm) % M(bits))
                 elif bits == 1 and op in ('and', 'or', 'xor'):
                     if isinstance(a, bool) and isinstance(b, bool):
                         r = {'and': a and b, 'or': a or b, 'xor': a != b}[op]
